@@ -54,64 +54,64 @@ def returns_of(f):
     return out
 
 
-def check_wrapper(ck, prog, rule, api_rel, api_qual, backend_key, argmap=None, allow_pre=()):
-    """obligation: api function returns `<receiver>.<backend>(...)` unchanged on every path that returns,
-    passing each of its own parameters named in argmap (default: all, same name) to the stated formal.
+def _resolve_local(f, node):
+    """a Name bound exactly once in f -> the bound value"""
+    if isinstance(node, ast.Name):
+        vals = [n.value for n in ast.walk(f.node) if isinstance(n, ast.Assign) and len(n.targets) == 1
+                and isinstance(n.targets[0], ast.Name) and n.targets[0].id == node.id]
+        if len(vals) == 1:
+            return vals[0]
+    return node
 
-    allow_pre: names of calls allowed as statements before the return (guards, messages)."""
+
+def check_wrapper(ck, prog, rule, api_rel, api_qual, backend_key, argmap=None, allow_pre=(), void=False):
+    """a thin wrapper: what it returns (or, for void=True, the one backend call it makes) is `<receiver>.<backend>(...)` with each
+    of its own parameters (argmap, default: all, same name) bound to the stated formal.
+    Shape problems (no return, a returned expression that is not a resolvable call) are 'undecided'; a resolvable call to a
+    different callee or a parameter bound to the wrong formal is a violation."""
     f = prog.fn(api_rel, api_qual)
     construct = f.mod.relpath + ":" + f.qual
-    rets = returns_of(f)
-    ok_any = False
     own = [p for p in f.params() if p != "self"]
     argmap = dict(argmap) if argmap is not None else {p: p for p in own}
-    if not rets:
-        ck.ob(rule, construct, False, expected="return %s(...)" % backend_key, found="no return statement",
-              slot="return", where=f.loc())
-        return False
+    calls = []
+    if void:
+        bcls = backend_key.split(":")[1].split(".")[0]
+        for n in ast.walk(f.node):
+            if isinstance(n, ast.Call):
+                c = prog.resolve_call(f, n)
+                if c is not None and c.cls == bcls and c.mod.rel == backend_key.split(":")[0]:
+                    calls.append(n)
+        if len(calls) != 1:
+            raise Undecided("unrecognised shape: %s makes %d backend calls (expected one)" % (f.qual, len(calls)), f.loc())
+    else:
+        rets = returns_of(f)
+        if not rets:
+            raise Undecided("unrecognised shape: %s has no return statement" % f.qual, f.loc())
+        for r in rets:
+            v = _resolve_local(f, r.value) if r.value is not None else None
+            if not isinstance(v, ast.Call) or prog.resolve_call(f, v) is None:
+                raise Undecided("unrecognised shape: %s returns %s, not a resolvable call" % (f.qual, unparse(r.value) if r.value is not None else None), f.loc(r))
+            calls.append(v)
     good = True
-    for r in rets:
-        v = r.value
-        if not isinstance(v, ast.Call):
-            good &= ck.ob(rule, construct, False, expected="return %s(...)" % backend_key,
-                          found=unparse(v) if v is not None else "return None", slot="return", where=f.loc(r))
-            continue
+    for v in calls:
         callee, b = bind(prog, f, v)
-        if callee is None or callee.key != backend_key:
-            good &= ck.ob(rule, construct, False, expected=backend_key,
-                          found=(callee.key if callee else "unresolved: " + unparse(v.func)),
-                          slot="callee", where=f.loc(r))
+        if callee.key != backend_key:
+            good &= ck.ob(rule, construct, False, expected=backend_key, found=callee.key, slot="callee", where=f.loc(v),
+                          note="the API method must forward to its own backend routine")
             continue
         for own_p, formal in argmap.items():
             actual = b.get(formal)
-            found = unparse(actual) if actual is not None else None
             if actual is None:
-                # an omitted argument is fine only when both defaults are the same literal
-                d_api = f.defaults().get(own_p)
-                d_be = callee.defaults().get(formal)
-                same = d_api is not None and d_be is not None and ast.dump(d_api) == ast.dump(d_be)
-                good &= ck.ob(rule, construct, False, expected="%s -> %s" % (own_p, formal),
-                              found="parameter %s is not forwarded%s" % (own_p, " (defaults agree)" if same else ""),
-                              slot=own_p, where=f.loc(r))
+                good &= ck.ob(rule, construct, False, expected="%s -> %s" % (own_p, formal), found="parameter %s is not forwarded" % own_p,
+                              slot=own_p, where=f.loc(v))
                 continue
             ok = isinstance(actual, ast.Name) and actual.id == own_p
-            good &= ck.ob(rule, construct, ok, expected="%s -> %s" % (own_p, formal),
-                          found="%s -> %s" % (found, formal), slot=own_p, where=f.loc(r))
+            if not ok and not any(isinstance(x, ast.Name) and x.id in own for x in ast.walk(actual)):
+                raise Undecided("unrecognised shape: argument %s of %s is computed, not forwarded" % (formal, callee.qual), f.loc(v))
+            good &= ck.ob(rule, construct, ok, expected="%s -> %s" % (own_p, formal), found="%s -> %s" % (unparse(actual), formal), slot=own_p, where=f.loc(v))
         extra = [k for k in b if k.startswith("*")]
         if extra:
-            good &= ck.ob(rule, construct, False, expected="arity of %s" % backend_key, found=extra,
-                          slot="arity", where=f.loc(r))
-        ok_any = True
-    # statements other than the return(s): only the allowed guards
-    for s in f.body():
-        if isinstance(s, ast.Return):
-            continue
-        names = {n.func.attr if isinstance(n.func, ast.Attribute) else getattr(n.func, "id", "?")
-                 for n in ast.walk(s) if isinstance(n, ast.Call)}
-        stores = [n for n in ast.walk(s) if isinstance(n, (ast.Assign, ast.AugAssign))]
-        if stores or not names <= set(allow_pre) | {"len"}:
-            good &= ck.ob(rule, construct, False, expected="only guards %s before the return" % (sorted(allow_pre),),
-                          found=unparse(s)[:120], slot="pre", where=f.loc(s))
-    if good and ok_any:
+            good &= ck.ob(rule, construct, False, expected="arity of %s" % backend_key, found=extra, slot="arity", where=f.loc(v))
+    if good:
         ck.ob(rule, construct, True, expected=backend_key, found=backend_key, slot="forwards")
-    return good and ok_any
+    return good
